@@ -14,3 +14,13 @@ for q, fi in sorted(P.functions.items()):
     out[q] = fi.params + fi.kwonly
 json.dump(out, open("/verif/bbstatic/signatures.json", "w"), indent=0, sort_keys=True)
 print(len(out), "signatures")
+
+# positional order (what a positional call binds to): parameters of every function, fields of every dataclass
+pos = {}
+for q, fi in sorted(P.functions.items()):
+    pos[q] = fi.params
+for q, ci in sorted(P.classes.items()):
+    if ci.is_dataclass:
+        pos[q + ".<fields>"] = ci.all_fields()
+json.dump(pos, open("/verif/bbstatic/signatures_pos.json", "w"), indent=0, sort_keys=True)
+print(len(pos), "positional orders")
